@@ -636,7 +636,11 @@ pub fn check_chain(c: &ChainCase, obs: &mut Obs) -> CheckResult {
     }
     let mut evals = pristine(&c.spec, &b, obs)?;
     evals += judge(&b, &Op::None, obs)?;
-    for op in &c.ops {
+    // operators hitting a recorded (known) defect end the case: evaluate those last so that they
+    // do not mask the other operators of the case
+    let mut ops: Vec<&Op> = c.ops.iter().collect();
+    ops.sort_by_key(|o| matches!(o, Op::InsertCopy { .. }));
+    for op in ops {
         let e = judge(&b, op, obs)?;
         if e > 0 && *op != Op::None {
             obs.nontrivial(&(&c.spec, op));
